@@ -276,8 +276,18 @@ def main():
     except common.DriverError as e:
         infra_error = f"model driver failed: {e}"
         broken.append(infra_error)
-    except Exception:
+    except Exception as e:  # noqa: BLE001
         infra_error = traceback.format_exc()
+        # An exception raised INSIDE the implementation under test (innermost frame in /repo's package) while the harness exercised it is not an
+        # infrastructure problem: the harness never raises on the unchanged tree, so the tie to the code could not be established for this run —
+        # a correspondence that no longer checks.  (Exceptions raised by harness code itself stay infrastructure errors: exit 2, no verdict.)
+        tb = traceback.extract_tb(e.__traceback__)
+        if tb and (os.sep + "queasars" + os.sep) in tb[-1].filename and (os.sep + "harness" + os.sep) not in tb[-1].filename:
+            where = f"{os.path.basename(tb[-1].filename)}:{tb[-1].lineno} in {tb[-1].name}"
+            broken.append(f"correspondence run could not be completed: the implementation raised {type(e).__name__} ({str(e)[:80]}) at {where} "
+                          "on an input on which it does not raise on the reference tree")
+            ctx.notes.append("harness run aborted by an exception of the implementation:\n" + infra_error[-1500:])
+            infra_error = None
     if infra_error and not isinstance(infra_error, str):
         infra_error = str(infra_error)
 
